@@ -7,17 +7,19 @@ Import ListNotations.
 Local Open Scope Z_scope.
 
 (* one observation in -> an action of the action space's shape, for every supported (non-Dict) space pair *)
-Theorem C11_predict_shape_single : forall sp ashape, predict_shape sp ashape (space_shape sp) = Some ashape.
+(* [supported]: every space kind except a Box of rank 0, which passes the shape logic but makes the features extractor raise
+   (finding box-rank0-observation-rejected; the model rejects it, see C11_rank0_box_rejected) *)
+Theorem C11_predict_shape_single : forall sp ashape, supported sp = true -> predict_shape sp ashape (space_shape sp) = Some ashape.
 Proof. exact predict_shape_single. Qed.
 Print Assumptions C11_predict_shape_single.
 
 (* a batch of n observations in (every n, n = 1 included) -> n actions *)
-Theorem C11_predict_shape_batch : forall sp ashape n, predict_shape sp ashape (n :: space_shape sp) = Some (n :: ashape).
+Theorem C11_predict_shape_batch : forall sp ashape n, supported sp = true -> predict_shape sp ashape (n :: space_shape sp) = Some (n :: ashape).
 Proof. exact predict_shape_batch. Qed.
 Print Assumptions C11_predict_shape_batch.
 
 (* a leading batch dimension exactly when the input had one *)
-Theorem C11_batch_dimension_iff : forall sp ashape o r,
+Theorem C11_batch_dimension_iff : forall sp ashape o r, supported sp = true ->
   (o = space_shape sp \/ exists n, o = n :: space_shape sp) ->
   predict_shape sp ashape o = Some r ->
   (r = ashape <-> o = space_shape sp) /\ (forall n, o = n :: space_shape sp -> r = n :: ashape).
@@ -36,18 +38,31 @@ Proof. exact predict_shape_image_channel_last. Qed.
 Print Assumptions C11_image_channel_last_accepted.
 
 (* Dict observations: all keys single -> action shape; all keys batched with the same n -> (n, *action shape) *)
-Theorem C11_dict_single : forall sps ashape, sps <> [] ->
+Theorem C11_dict_single : forall sps ashape, sps <> [] -> Forall key_ok sps ->
   predict_shape_dict sps ashape (map space_shape sps) = Some ashape.
 Proof. exact predict_shape_dict_single. Qed.
 Print Assumptions C11_dict_single.
 
-Theorem C11_dict_batch : forall sps ashape n, sps <> [] ->
+Theorem C11_dict_batch : forall sps ashape n, sps <> [] -> Forall key_ok sps ->
   predict_shape_dict sps ashape (map (fun sp => n :: space_shape sp) sps) = Some (n :: ashape).
 Proof. exact predict_shape_dict_batch. Qed.
 Print Assumptions C11_dict_batch.
 
+(* a rank-0 Box observation is rejected (the network's Flatten(start_dim=1) raises), single and batched *)
+Theorem C11_rank0_box_rejected : forall img ashape n,
+  predict_shape (SBox [] img) ashape [] = None /\ predict_shape (SBox [] img) ashape [n] = None.
+Proof. exact (fun img ashape n => conj eq_refl eq_refl). Qed.
+Print Assumptions C11_rank0_box_rejected.
+
+(* malformed Dict observations: `vectorized_env = vectorized_env or ...` short-circuits, so acceptance depends on the key order *)
+Theorem C11_dict_short_circuit_order_dependent :
+  predict_shape_dict [SBox [2] false; SBox [2] false] [] [[3; 2]; [3; 1; 2]] = Some [3] /\
+  predict_shape_dict [SBox [2] false; SBox [2] false] [] [[3; 1; 2]; [3; 2]] = None.
+Proof. exact dict_short_circuit_example. Qed.
+Print Assumptions C11_dict_short_circuit_order_dependent.
+
 (* DQN's exploration branch obeys the same shape law as the greedy branch *)
-Theorem C11_dqn_epsilon_same_shape_law : forall sp n,
+Theorem C11_dqn_epsilon_same_shape_law : forall sp n, supported sp = true ->
   dqn_eps_shape sp (space_shape sp) = predict_shape sp [] (space_shape sp) /\
   dqn_eps_shape sp (n :: space_shape sp) = predict_shape sp [] (n :: space_shape sp).
 Proof. exact dqn_eps_same_shape_law. Qed.
@@ -66,6 +81,11 @@ Print Assumptions C11_unscale_in_bounds_partial.
 Theorem C11_one_hot_by_value : forall n v j, (j < n)%nat -> nth j (onehot n v) 0 = if Nat.eqb j v then 1 else 0.
 Proof. exact one_hot_by_value. Qed.
 Print Assumptions C11_one_hot_by_value.
+
+Theorem C11_one_hot_single_one : forall n v, (v < n)%nat ->
+  nth v (onehot n v) 0 = 1 /\ forall j, (j < n)%nat -> j <> v -> nth j (onehot n v) 0 = 0.
+Proof. exact one_hot_has_one. Qed.
+Print Assumptions C11_one_hot_single_one.
 
 Theorem C11_one_hot_injective : forall n v w, (v < n)%nat -> (w < n)%nat -> onehot n v = onehot n w -> v = w.
 Proof. exact one_hot_injective. Qed.
@@ -159,6 +179,7 @@ Example C11_ex :
   predict_shape (SMultiBinary [2; 3]) [4] [2; 3] = Some [4] /\
   predict_shape SDiscrete [2] [7] = Some [7; 2] /\
   predict_shape (SBox [4] false) [2] [3; 5] = None /\
+  predict_shape_dict [SBox [1; 36; 36] true; SBox [2] false] [3] [[4; 36; 36; 1]; [4; 2]] = Some [4; 3] /\
   predict_shape_dict [SBox [2] false; SDiscrete] [3] [[4; 2]; [4]] = Some [4; 3] /\
   predict_shape_dict [SBox [2] false; SDiscrete] [3] [[4; 2]; []] = None /\
   onehot 4 2 = [0; 0; 1; 0].
